@@ -315,6 +315,13 @@ def integrity(sc, res, cfg, descr):
         res.count("index_head_checks")
         if r.returncode != 0:
             res.violation(f"{tag}/index-differs-from-head-after-race", f"[{'+'.join(sc.ops)}] {descr}: git diff-index --cached HEAD reports differences (index and HEAD commit disagree)", {"config": cfg})
+        # the working tree is what delete_one / a plain git user reads: it must agree with the index
+        r = subprocess.run(["git", "-C", sc.work, "status", "--porcelain", "--untracked-files=all"], capture_output=True, text=True, env=sc.env, timeout=60)
+        res.count("worktree_checks")
+        lines = [ln for ln in r.stdout.splitlines() if not ln.endswith(".lock")]
+        if r.returncode == 0 and lines:
+            kinds = sorted({ln[:2].strip() or "?" for ln in lines})
+            res.violation(f"{tag}/working-tree-differs-from-index-after-race/{'+'.join(kinds)}", f"[{'+'.join(sc.ops)}] {descr}: git status --porcelain: {lines[:6]!r}", {"config": cfg})
 
 
 def run_shard(args):
